@@ -104,7 +104,7 @@ class Builder:
 
   def seq(self, name, sort=None, kind='list', wrap=None, unwrap=None,
           max_len=None):
-    sort = sort or z3.IntSort()
+    sort = z3.IntSort() if sort is None else sort
     arr = self._reg(name + '.arr', z3.Array(name + '.arr', z3.IntSort(), sort))
     n = self._reg(name + '.len', z3.Int(name + '.len'))
     self.path.assume(n >= 0, check=False)
@@ -363,7 +363,7 @@ class Report:
 
 def make_policy(contract, all_contracts):
   p = I.Policy()
-  p.inline = set(contract.inline)
+  p.inline = set(contract.inline) | DEFAULT_INLINE | {contract.target}
   p.inline_modules = set(contract.inline_modules)
   p.pure = set(contract.pure) | DEFAULT_PURE
   p.unknown_call_is_error = contract.unknown_call_is_error
@@ -373,6 +373,12 @@ def make_policy(contract, all_contracts):
   contract.setup_policy(p)
   return p
 
+
+DEFAULT_INLINE = {
+    'pyglove.core.utils.missing:MissingValue.__eq__',
+    'pyglove.core.utils.missing:MissingValue.__ne__',
+    'pyglove.core.typing.typed_missing:MissingValue.__eq__',
+}
 
 DEFAULT_PURE = {
     'pyglove.core.utils.value_location:message_on_path',
@@ -544,6 +550,9 @@ def run_contract(contract, xcheck=True, goal_timeout_ms=8000):
   except Exception as e:  # pylint: disable=broad-except
     rep.error = 'engine: ' + ''.join(traceback.format_exception_only(type(e), e)).strip() \
         + ' @ ' + traceback.format_exc().splitlines()[-3].strip()
+    import os
+    if os.environ.get('PYVC_DEBUG'):
+      traceback.print_exc()
   for rec in ex.results:
     rep.add(rec)
   rep.paths = ex.paths
